@@ -162,7 +162,11 @@ func (a *FuncAction) Exec(ctx context.Context, bs Bindings, props StepProps) (*E
 
 	exe, err := a.F(ctx, bs, props)
 
-	if Exp_PermanentBindings {
+	// Restore the permanent bindings in the bindings that were
+	// returned (if any).  An execution that failed (no Execution)
+	// or that returned no bindings (e.g. a guard that declines)
+	// has nothing to restore them into.
+	if Exp_PermanentBindings && exe != nil && exe.Bs != nil {
 		for p, v := range permanent {
 			exe.Bs[p] = v
 		}
